@@ -220,6 +220,13 @@ def srs_cases(draw):
     freq = sorted(set(round(draw(st.floats(5.0, sr / 2.5)), 3) for _ in range(nf)))
     if len(freq) < 2:
         freq = [10.0, 50.0]
+    # "any frequency vector": a fifth of the vectors repeat an entry (consecutively), a fifth are unsorted
+    shape = draw(st.sampled_from(["sorted", "sorted", "sorted", "repeat", "shuffled"]))
+    if shape == "repeat":
+        i = draw(st.integers(0, len(freq) - 1))
+        freq = freq[: i + 1] + [freq[i]] * draw(st.integers(1, 2)) + freq[i + 1:]
+    elif shape == "shuffled":
+        freq = draw(st.permutations(freq))
     return {"n": draw(st.integers(200, 3000)), "ncol": draw(st.integers(1, 3)), "onedim": draw(st.booleans()),
             "sr": sr, "freq": freq, "Q": draw(st.sampled_from([10.0, 25.0, 5.0, 0.7])),
             "stype": draw(st.sampled_from(STYPES)), "ic": draw(st.sampled_from(["zero", "shift", "mshift", "steady"])),
@@ -256,7 +263,7 @@ def enum_grid(shard, nshards, tier):
                     i += 1
                     if i % nshards == shard:
                         yield {"n": 400 + 7 * i, "ncol": 1 + i % 3, "onedim": bool(i % 2), "sr": 1000.0,
-                               "freq": [10.0, 35.0, 80.0, 150.0, 220.0][: 3 + i % 3], "Q": 10.0, "stype": stype,
+                               "freq": [10.0, 35.0, 35.0, 80.0, 150.0, 220.0][: 3 + i % 4], "Q": 10.0, "stype": stype,
                                "ic": ic, "peak": ["abs", "pos", "neg", "poss", "negs", "rms"][i % 6], "time": tm,
                                "getresp": getresp, "eqsine": False, "maxcpu": [2, 3, 4][i % 3],
                                "delay": "reverse", "offset": 3.0, "seed": i}
